@@ -471,6 +471,36 @@ func (m *gomap) find(i *interpreter, k value) int {
 		}
 		return -1
 	}
+	// symbolic integer key over (mostly) concrete keys: one membership decision plus a
+	// solver-driven enumeration of the feasible keys instead of one decision per entry
+	if sv, ok := k.(*SV); ok && sv.t.w > 0 && len(m.index) > 8 {
+		member := tFalse
+		allNative := true
+		for s := range m.keys {
+			if m.dead[s] {
+				continue
+			}
+			if _, n := nativeKey(m.keys[s]); !n {
+				allNative = false
+				break
+			}
+			member = mkOr(member, i.equalsT(m.keyType, m.keys[s], k))
+		}
+		if allNative {
+			if !i.decide(member) {
+				return -1
+			}
+			save := i.ex.concCap
+			i.ex.concCap = len(m.keys) + 1
+			v := i.concretize(sv.t, "map key")
+			i.ex.concCap = save
+			kb, _ := basicKind(m.keyType)
+			if s, ok := m.index[mkInt(kb, v)]; ok {
+				return s
+			}
+			panic(engineError{"map key enumeration produced a non-member"})
+		}
+	}
 	for s := range m.keys {
 		if m.dead[s] {
 			continue
